@@ -177,7 +177,7 @@ class Alarm:
 
 
 class Summary:
-    __slots__ = ("ret", "alarms", "returns", "sites", "discharged", "outcomes", "hull", "n_out", "err_pure")
+    __slots__ = ("ret", "alarms", "returns", "sites", "discharged", "outcomes", "hull", "n_out", "err_pure", "accepts")
 
     def __init__(self):
         self.ret = None
@@ -188,6 +188,7 @@ class Summary:
         self.outcomes = []   # [(return value, facts)] per accepting path (deduplicated, bounded)
         self.hull = None     # facts that hold on every returning path (interval hull)
         self.n_out = 0
+        self.accepts = []    # (return value, facts) of every non-Err return path of the root function (up to 256)
         self.err_pure = []   # Err-only returns reached without any decision on input-derived data: [(return loc, last decision loc)]
 
 
@@ -215,6 +216,7 @@ class Analyzer:
         self.stats = defaultdict(int)
         self.undecided = {}
         self.split_shifts = False
+        self.check_truncation = False   # narrowing integer casts are sites (the operand must fit the target type)
         self.invariants = {}   # adt id -> {field index: (lo, hi)} checked at every construction site
         self.site_log = {}
         self.analysed_fns = set()
@@ -994,10 +996,37 @@ def _analyze(self, fn, args, chain=(), subst=None, facts=None):
                         continue
                 v = self.eval_rv(fn, st, s["rv"], s)
                 self.write_place(fn, st, s["lhs"], v)
+                if self.split_shifts and s["rv"]["k"] == "bin" and s["rv"]["op"] in ("Eq", "Ne", "Lt", "Le", "Gt", "Ge") and "p" not in s["lhs"] \
+                        and v["k"] == "int" and v["lo"] == 0 and v["hi"] == 1 \
+                        and not (blk["t"]["k"] == "switch" and op_local(blk["t"]["d"], pure=True) == s["lhs"]["l"]):
+                    # a comparison stored in a boolean that is combined further (`(a == 0) != (b == 0)`): one path per truth value, each
+                    # with what the comparison implies about its operands
+                    alts = []
+                    for truth in (True, False):
+                        st2 = dict(st)
+                        if self.refine(fn, st2, s["lhs"]["l"], truth):
+                            st2[s["lhs"]["l"]] = const(1 if truth else 0, v["t"])
+                            alts.append(st2)
+                    if len(alts) == 2:
+                        work.append((b, alts[1], tctrl, onpath, i + 1))
+                        st.clear()
+                        st.update(alts[0])
+                        self._facts = st.get("#facts")
+                    elif len(alts) == 1:
+                        st.clear()
+                        st.update(alts[0])
+                        self._facts = st.get("#facts")
                 if s["rv"]["k"] == "use" and "p" not in s["lhs"]:
                     sl_ = op_local(s["rv"]["a"], pure=True)
                     if sl_ is not None and ("fact", sl_) in st:
                         st[("fact", s["lhs"]["l"])] = st[("fact", sl_)]
+                if self.check_truncation and s["rv"]["k"] == "cast" and s["rv"].get("ck") == "IntToInt":
+                    tr_, fr_ = ty_range(s["rv"].get("to", "")), ty_range(s["rv"].get("from", ""))
+                    if tr_ and fr_ and (fr_[0] < tr_[0] or fr_[1] > tr_[1]):
+                        a_ = self.read_op(fn, st, s["rv"]["a"])
+                        safe_ = a_["k"] == "int" and tr_[0] <= a_["lo"] and a_["hi"] <= tr_[1]
+                        self._record(summ, fn, b, i, "Truncation", f"{self.local_desc(fn, s['rv']['a'])} as {s['rv']['to']}", safe_, True, chain2,
+                                     f"value in [{a_['lo']}, {a_['hi']}]" if a_["k"] == "int" else "unknown value")
                 if self.invariants and s["rv"]["k"] == "agg" and s["rv"].get("adt") in self.invariants and v["k"] == "agg":
                     for fi, (ilo, ihi) in self.invariants[s["rv"]["adt"]].items():
                         fv = v["f"].get(fi)
@@ -1082,8 +1111,12 @@ def _analyze(self, fn, args, chain=(), subst=None, facts=None):
                     sw = st.get("#sw")
                     summ.err_pure.append((fn.loc(b, "T"), fn.loc(sw, "T") if sw is not None else None))
             elif summ.hull is None:
+                if not chain and len(summ.accepts) < 256:
+                    summ.accepts.append((rv0, dict(fc)))
                 summ.hull = dict(fc)
             else:
+                if not chain and len(summ.accepts) < 256:
+                    summ.accepts.append((rv0, dict(fc)))
                 summ.hull = {kk: (min(summ.hull[kk][0], fc[kk][0]), max(summ.hull[kk][1], fc[kk][1]),
                                   (len(summ.hull[kk]) > 2 and summ.hull[kk][2]) and (len(fc[kk]) > 2 and fc[kk][2]))
                              for kk in summ.hull if kk in fc}
@@ -2345,3 +2378,21 @@ def report_sites(ck, an, rule="E4", alarmed=()):
     ck.stats["distinct_sites_undecided"] = n["undecided"]
     ck.stats["distinct_sites_alarmed"] = n["alarm"]
     return n
+
+
+def with_path_facts(v, facts):
+    """the value as the facts of one path see it (integers by tag, sequence lengths by their length tag)"""
+    if v is None:
+        return v
+    if v["k"] == "int":
+        f = facts.get(v.get("s")) if v.get("s") is not None else None
+        if f:
+            v = dict(v, lo=max(v["lo"], f[0]), hi=min(v["hi"], f[1]), p2=bool(v.get("p2")) or (len(f) > 2 and bool(f[2])))
+        if v.get("p2") and v["hi"] >= 1:
+            v = dict(v, hi=1 << (v["hi"].bit_length() - 1))
+        return v
+    if v["k"] == "seq":
+        return dict(v, len=with_path_facts(v["len"], facts))
+    if v["k"] == "agg":
+        return {"k": "agg", "f": {k: with_path_facts(x, facts) for k, x in v["f"].items()}, "t": v["t"]}
+    return v
